@@ -16,8 +16,9 @@ MANIFEST = dict(
              'does not separate CR from LF (full statement refuted by witness: known finding F-CRLF-SPLIT), identity for no-op '
              'pipelines under every chunking, exact trimming of the translated TrimTrailingWhitespace (regex semantics in Coq), '
              'bound/keeps-non-empty/subsequence for the translated LimitEmptyLines for every N>=0. Tie: processors and both regular '
-             'expressions are re-translated from /repo on every run (proofs re-checked), the buffering loop is tied by running the '
-             'extracted model and CodeGenerator._generate_with_line_buffer on the same chunk sequences.',
+             'expressions are re-translated from /repo on every run (proofs re-checked), the buffering loop is tied by a shape pin on its '
+             'normalised AST plus running the extracted model and CodeGenerator._generate_with_line_buffer on the same chunk sequences '
+             '(incl. lines of 4 KiB..70 KiB against the property oracle).',
         note='Trusted: Coq kernel; T2 translator (Python ast -> Gallina) and regex parser; table of Python whitespace code points; '
              'extraction (ExtrOcamlBasic only) + OCaml driver; the hand model of the buffering loop is validated, not verified. '
              'Not covered: _copy_header_using_line_pps (support files copied verbatim) is modelled but not part of the theorems.',
@@ -112,6 +113,33 @@ def gen_cuts(rng, text: str) -> typing.List[str]:
         for _ in range(2):
             chunks.insert(rng.randrange(0, len(chunks) + 1), '')
     return chunks
+
+
+def gen_long_cases(rng, count: int):
+    """lines around and above typical buffer sizes (4096, 8192, 65536) delivered in several chunks, with cuts right after
+    trailing whitespace, right before the terminator and before blank lines (oracle-vs-implementation only: the extracted
+    model is too slow on such sizes)"""
+    cases = []
+    sizes = [4095, 4096, 4097, 8191, 8192, 8193, 16384, 65536, 70001]
+    while len(cases) < count:
+        n = rng.choice(sizes)
+        body = ''.join(rng.choice('ab Z\t;') for _ in range(n - 4)) + rng.choice(['  \t ', 'xx  ', '\t\tyy', ' \u00a0\u3000 '])
+        term = rng.choice(['\n', '\r\n', ''])
+        tail = rng.choice(['', '\n', '\n\n\nq \n', 'r  ' + term])
+        text = rng.choice(['', 'p \n', '\n\n']) + body + term + tail
+        k = rng.randrange(1, 6)
+        cuts = sorted(set([rng.randrange(0, len(text) + 1) for _ in range(k)] + [len(text) - len(tail) - len(term)] * rng.randrange(0, 2)
+                          + [len(text) - len(tail) - len(term) - rng.randrange(0, 5)]))
+        chunks, prev = [], 0
+        for c in cuts:
+            c = max(prev, min(c, len(text)))
+            chunks.append(text[prev:c])
+            prev = c
+        chunks.append(text[prev:])
+        if has_split_crlf(chunks):
+            continue
+        cases.append({'chunks': chunks, 'pps': rng.choice(PIPELINES)})
+    return cases
 
 
 def gen_cases(rng, count: int):
@@ -209,11 +237,11 @@ def main(chk: core.Check, replay: typing.Optional[str] = None) -> int:
         cases = gen_cases(chk.rng, n_cases)
 
     # 1. proof obligations against the regenerated translation
-    res = core.coq_check('C15', ['uni', 'linepp'])
+    res = core.coq_check('C15', ['uni', 'linepp', 'pin_linebuf'])
     chk.proof_coverage(res, [
         'T2 translator (tools/translators/pyfun_tr.py, regex_tr.py) for TrimTrailingWhitespace.__call__, LimitEmptyLines.__init__/__call__ and the two compiled patterns',
         'T1 table of Python \\s code points taken from the running interpreter',
-        'hand model Gen/LinePP.v of _generate_with_line_buffer/_filter_and_write_line, tied by the correspondence run below',
+        'hand model Gen/LinePP.v of _generate_with_line_buffer/_filter_and_write_line, tied by the shape pin (normalised AST of both functions must equal tools/translators/pins/linebuf.txt, else the obligation C15_linebuf_shape_pinned breaks) and by the correspondence run below',
         'extraction: Require Extraction ExtrOcamlBasic only; OCaml 4.13.1; ocaml/c15_driver.ml',
     ])
     broken: typing.List[str] = []
@@ -222,6 +250,9 @@ def main(chk: core.Check, replay: typing.Optional[str] = None) -> int:
 
     # 2. implementation vs. property oracle (falsifier; always run) and vs. the model
     impl = run_impl(cases)
+    long_cases = gen_long_cases(chk.rng, 60 if chk.tier == 'quick' else 600) if not replay else []
+    long_impl = run_impl(long_cases) if long_cases else []
+    long_bad = [i for i, c in enumerate(long_cases) if long_impl[i].get('ok') != oracle(c['chunks'], c['pps'])]
     ok_model, exe, log = core.build_extracted('c15', 'ExtractC15.v', 'c15_driver.ml')
     model = run_model(exe, cases) if ok_model else None
     if not ok_model:
@@ -280,7 +311,14 @@ def main(chk: core.Check, replay: typing.Optional[str] = None) -> int:
         'distribution': stats,
     })
 
-    if bad_oracle:
+    chk.coverage['distribution']['long_line_cases'] = len(long_cases)
+    chk.coverage['evaluations'] += len(long_cases)
+    if long_bad and not bad_oracle:
+        c = long_cases[long_bad[0]]
+        chk.violation({'case': c, 'expected_by_property': oracle(c['chunks'], c['pps']), 'implementation': long_impl[long_bad[0]],
+                       'what': 'implementation output differs from line-by-line application on a long line (line lengths around buffer sizes)',
+                       'broken': broken, 'n_failing': len(long_bad)}, found_input=True)
+    elif bad_oracle:
         i, exp, got = bad_oracle[0]
         small = shrink(cases[i], impl_violates) if not has_split_crlf(cases[i]['chunks']) else cases[i]
         chk.violation({'case': small, 'original_case': cases[i], 'expected_by_property': oracle(small['chunks'], small['pps']),
